@@ -33,6 +33,7 @@ MIN_REACH = {
     "states_judged": {"quick": 1500, "thorough": 30000},
     "grow_events_recorded": {"quick": 1200, "thorough": 25000},
     "failed_grows": {"quick": 40, "thorough": 800},
+    "reloads_by_same_constructor_call": {"quick": 30, "thorough": 600},
     "failed_grows_iteration_protocol_exception": {"quick": 15, "thorough": 250},
     "check_bad_calls": {"quick": 40, "thorough": 800},
     "unwritable_results": {"quick": 40, "thorough": 800},
@@ -65,7 +66,9 @@ def cases(ctx):
         hist = [rng.choice(OPS) for _ in range(rng.randint(3, 12))]
         yield {"B": B, "n": n, "cases": use_cases, "batching": rng.choice(["num_batches", "batchsize"]),
                "shuffle": rng.choice([False, False, True, 11]), "hist": hist, "hseed": rng.randint(0, 10 ** 9),
-               "kind": rng.choice(["int", "float", "str", "tuple:2", "array:2"])}
+               "kind": rng.choice(["int", "float", "str", "tuple:2", "array:2"]),
+               # more batches requested than there are settings (the crop is capped to one setting per batch)
+               "over": rng.random() < 0.15}
 
 
 def _workload(case):
@@ -127,7 +130,7 @@ def run_case(ctx, case):
     sig = {"api": "progress", "form": w["mode"], "batching": case["batching"]}
     ctor = {"shuffle": case["shuffle"]} if case["shuffle"] else {}
     if case["batching"] == "num_batches":
-        ctor["num_batches"] = case["B"]
+        ctor["num_batches"] = case["B"] if not case.get("over") else case["n"] + 1 + case["hseed"] % 3
     else:
         ctor["batchsize"] = -(-case["n"] // case["B"])
     try:
@@ -201,7 +204,12 @@ def run_case(ctx, case):
         try:
             with quiet():
                 if op == "reload":
-                    crop = xyzpy.Crop(name=name, parent_dir=tmp)
+                    if rng.random() < 0.5:
+                        crop = xyzpy.Crop(name=name, parent_dir=tmp)
+                    else:
+                        # re-created by the same constructor call (re-running the script that made it)
+                        crop = xyzpy.Crop(fn=fn, name=name, parent_dir=tmp, **ctor)
+                        ctx.count("reloads_by_same_constructor_call")
                     ctx.count("reloads")
                 elif op == "query":
                     pass
